@@ -7,6 +7,7 @@ import (
 	"sort"
 	"strings"
 	"sync"
+	"time"
 
 	"github.com/prometheus/prometheus/storage"
 
@@ -39,6 +40,11 @@ var c12Pool = []string{
 	`m0{a="x"} + on(a,b) m0`, `sort_desc(m0)`, `m0 and on(a) m1`, `max_over_time(m0[2m:30s])`, `clamp_min(m0, 3)`, `m0 offset 1m`, `m0 @ 3660`,
 }
 
+var c12Nested = []string{
+	`max(sum by (a) (max by (a, b) (m0)))`, `sum(count by (a) (sum by (a, b) (rate(m0[1m]))))`, `max by (a) (sum by (a, b) (-m0)) / on(a) group_left sum by (a) (m1)`,
+	`sum(max by (b) (sum by (a, b) (m0 * 2)))`, `count(topk(3, sum by (a, b, c) (m0)))`, `min(max by (a) (min by (a, b) (max by (a, b, c) (m0))))`,
+}
+
 func (c12Prop) Gen(seed uint64, tier string, i int) Case {
 	r := NewRng(seed, 12, uint64(i))
 	c := Case{Prop: "C12", Kind: "concurrent-round", Seed: seed, Index: i, Dataset: faultDataset()}
@@ -51,8 +57,20 @@ func (c12Prop) Gen(seed uint64, tier string, i int) Case {
 	if r.P(0.25) {
 		c.NParts = 2
 		c.Engine.Opt = "none"
+	} else if r.P(0.12) {
+		// heavy round: many goroutines, deeply nested plans over a few hundred series, so that whatever
+		// the queries share process-wide (slots, pools, worker groups) is contended and held nested
+		k = 48
+		c.Queries = nil
+		for j := 0; j < 3; j++ {
+			c.Queries = append(c.Queries, Pick(r, c12Nested))
+		}
+		c.Extra = map[string]any{"heavy": true}
 	}
-	c.Extra = map[string]any{"k": float64(k), "iters": float64(2 + r.Intn(3))}
+	if c.Extra == nil {
+		c.Extra = map[string]any{}
+	}
+	c.Extra["k"], c.Extra["iters"] = float64(k), float64(2+r.Intn(3))
 	if r.P(0.5) {
 		// texts nobody in this process has planned before, first met by all goroutines at once: state
 		// keyed by the query text (plan caches, memo tables) is filled under contention
@@ -132,6 +150,20 @@ func (c12Prop) Check(c Case) Outcome {
 	so := StoreOpts{Pure: true}
 	if perturbed {
 		so.PerturbSeed = uint64(pert)
+	}
+	if heavy, _ := c.Extra["heavy"].(bool); heavy {
+		base := c.Dataset
+		c.Dataset = Dataset{}
+		for rep := 0; rep < 24; rep++ {
+			for _, s := range base.Series {
+				ls := map[string]string{"c": fmt.Sprint(rep)}
+				for k, v := range s.Labels {
+					ls[k] = v
+				}
+				c.Dataset.Series = append(c.Dataset.Series, Series{Labels: ls, Samples: s.Samples})
+			}
+		}
+		c.Dataset.Normalize()
 	}
 	var eng QueryEngine
 	var st storage.Queryable
@@ -244,7 +276,18 @@ func (c12Prop) Check(c Case) Outcome {
 		}
 	}
 	InstallPurePerturbation()
-	body()
+	finished := make(chan struct{})
+	go func() {
+		defer close(finished)
+		body()
+	}()
+	select {
+	case <-finished:
+	case <-time.After(2 * time.Minute):
+		// generous: a heavy round takes seconds; nothing ends a round in which the queries wait for each other
+		o.Add("hang", fmt.Sprintf("the round of %d goroutines did not finish within 2 minutes: concurrent queries wait for each other\n%s", k, strings.Join(scanGoroutines(), "\n\n")))
+		return o
+	}
 	for _, s := range stores {
 		for _, m := range s.VerifyPristine() {
 			o.Add("storage-labels-modified", m)
